@@ -10,7 +10,7 @@ Include field.
 import os
 from typing import Optional
 
-from ..core import Config, ConfigFormat, IncludeFieldMixin
+from ..core import Config, ConfigFormat, IncludeFieldMixin, ValidationError
 from .file_field import FilenameField
 
 
@@ -73,7 +73,13 @@ class IncludeField(FilenameField, IncludeFieldMixin):
         :param base: base config value tree
         :returns: the new basic value tree containing the base tree and the included tree
         """
-        filename = self.validate(config, filename)
+        try:
+            filename = self.validate(config, filename)
+        except ValidationError:
+            raise
+        except ValueError as err:
+            # a rejected include value is reported like any other rejected field value
+            raise ValidationError(config, self, err, self._ref_path) from err
         with open(os.path.expanduser(filename), "rb") as fp:
             content = fp.read()
 
